@@ -1,3 +1,4 @@
 import ZkVerif.Audit
 import ZkVerif.Props.C16
+import ZkVerif.Props.C15Text
 #audit_ns ZkVerif.C16
